@@ -252,6 +252,10 @@ pub fn run_world_check(c: WorldCheck, tier: Tier, seed: u64) -> i32 {
     if c.prop == "C11" {
         s.search("world-after-failed-attempts", "world", tier.pick(150, 3000), after_failed_attempts_strategy, &case);
     }
+    if c.prop == "C02" && tier == Tier::Thorough {
+        // the hook handler and main() are only reachable through the binary: a pay command that takes long
+        crate::e2e::c02_e2e(&mut s);
+    }
     if matches!(c.prop, "C02" | "C05" | "C08") {
         s.search("world-lifecycle-overlap", "world", tier.pick(300, 4000), overlap_strategy, &case);
         if tier == Tier::Thorough {
